@@ -110,19 +110,13 @@ func waypointMesh(seed uint64) []obj {
 		g.hosts = append(g.hosts, k8sHost(name, "default"))
 	}
 	// ServiceEntries behind the waypoint (multi-host, multi-address, shared hosts)
-	// Each host is claimed by one ServiceEntry only: two ServiceEntries of one namespace claiming one host give the
-	// ambient index two inputs for one ServiceInfo key, and which one it keeps depends on the order of the events
-	// (observed: `wpsvc default/db.example.com` with 3 ports in one build, 1 in another) - a question about the
-	// state of the index (C16, finding F6 class), which this harness excludes by comparing settled states only.
-	pool := append([]string(nil), extHosts...)
-	shuffle(g.r, pool)
-	for i, n := 0, 1+g.r.Intn(4); i < n && len(pool) > 0; i++ {
+	// Hosts are drawn with replacement: two ServiceEntries of one namespace can claim one host. The ambient index
+	// then has two inputs for one ServiceInfo key (namespace/hostname); see finding C17-S1 in notes/C17.md.
+	for i, n := 0, 1+g.r.Intn(4); i < n; i++ {
 		nh := 1 + g.r.Intn(3)
-		if nh > len(pool) {
-			nh = len(pool)
-		}
-		hosts := pool[:nh]
-		pool = pool[nh:]
+		hosts := append([]string(nil), extHosts...)
+		shuffle(g.r, hosts)
+		hosts = hosts[:nh]
 		se := &networking.ServiceEntry{Hosts: hosts, Ports: sePorts(g.r), Resolution: networking.ServiceEntry_STATIC}
 		for e, ne := 0, 1+g.r.Intn(4); e < ne; e++ {
 			se.Endpoints = append(se.Endpoints, &networking.WorkloadEntry{Address: fmt.Sprintf("10.20.%d.%d", i, e+1), Labels: map[string]string{"version": g.pick([]string{"v1", "v2"})}})
